@@ -54,11 +54,11 @@ type slot struct {
 
 type FaultCfg struct {
 	ReqLost, RespLost, RespTrunc, Cancel bool
-	StripMethod, StripVersion             bool
-	DamagePath, DamageQuery, DamageBody   bool
-	DamageResp                            bool
-	TunnelDamage                          bool
-	Rate                                  int // percent per opportunity
+	StripMethod, StripVersion            bool
+	DamagePath, DamageQuery, DamageBody  bool
+	DamageResp                           bool
+	TunnelDamage                         bool
+	Rate                                 int // percent per opportunity
 }
 
 type Net struct {
@@ -73,10 +73,20 @@ type Net struct {
 }
 
 //go:norace
-func (n *Net) setCur(task int, c *Call) { n.cur[task] = c }
+func (n *Net) setCur(task int, c *Call) {
+	if task < 0 { // outside the kernel (single-threaded scenarios)
+		task = len(n.cur) - 1
+	}
+	n.cur[task] = c
+}
 
 //go:norace
-func (n *Net) getCur(task int) *Call { return n.cur[task] }
+func (n *Net) getCur(task int) *Call {
+	if task < 0 {
+		task = len(n.cur) - 1
+	}
+	return n.cur[task]
+}
 
 //go:norace
 func (n *Net) alloc() *slot {
